@@ -5,7 +5,19 @@ open LPVerif.Argv
 
 /-- kernprof.py: every `parser.add_argument(...)` option -/
 def kernprofOptions : List OptSpec := [
-
+  ⟨"-h", "--help", .help⟩,
+  ⟨"-V", "--version", .version⟩,
+  ⟨"-l", "--line-by-line", .flag⟩,
+  ⟨"-b", "--builtin", .flag⟩,
+  ⟨"-o", "--outfile", .value⟩,
+  ⟨"-s", "--setup", .value⟩,
+  ⟨"-v", "--view", .flag⟩,
+  ⟨"-r", "--rich", .flag⟩,
+  ⟨"-u", "--unit", .value⟩,
+  ⟨"-z", "--skip-zero", .flag⟩,
+  ⟨"-i", "--output-interval", .optInt⟩,
+  ⟨"-p", "--prof-mod", .value⟩,
+  ⟨"", "--prof-imports", .flag⟩
 ]
 
 end LPVerif.Generated
